@@ -214,7 +214,7 @@ PROPS = {
 # (all interleavings up to a preemption bound, C11 memory model). A failure is a violation with the
 # scenario as replay; passing adds nothing to the proof level.
 LOOM = {
-    "C01": ["c01_try_lock", "c01_lock", "c05_three", "c01_blocking"],
+    "C01": ["c01_try_lock", "c01_lock", "c05_three", "c01_blocking", "c05_starved", "c05_starved_held", "c05_barge"],
     "C02": ["c02_try", "c02_upgrade", "c02_async", "c06_mix", "c11_downgrade_async", "c11_upgrade_async",
             "c02_blocking", "c11_blocking"],
     "C03": ["c03_add", "c03_excl", "c03_async", "c07_three", "c03_blocking"],
@@ -222,8 +222,8 @@ LOOM = {
     "C05": ["c01_lock", "c05_three", "c05_starved", "c05_starved_held", "c05_barge", "c01_blocking", "c10_mutex_cancel"],
     "C06": ["c02_async", "c06_mix", "c11_upgrade_async", "c02_blocking", "c10_rw_cancel"],
     "C07": ["c03_async", "c07_three", "c03_blocking", "c10_sem_cancel", "c07_blocking_two"],
-    "C08": ["c08_handover", "c04_blocking", "c08_blocking"],
-    "C09": ["c09_barrier", "c09_blocking"],
+    "C08": ["c08_handover", "c04_blocking", "c08_blocking", "c08_wait_blocking_handover"],
+    "C09": ["c09_barrier", "c09_blocking", "c09_cancel_race"],
     "C10": ["c10_mutex_cancel", "c10_rw_cancel", "c10_sem_cancel"],
     "C11": ["c11_downgrade", "c11_to_upgradable", "c11_downgrade_async", "c11_upgrade_async", "c11_blocking"],
     "C12": ["c02_async", "c06_mix", "c02_blocking"],
